@@ -86,6 +86,10 @@ class HookBoom(Exception):
     """what a buggy user hook raises"""
 
 
+class TransportBoom(Exception):
+    """what the fault probe makes the ATT layer raise while a handler sends its answer"""
+
+
 RETURNS = object()
 
 
@@ -292,6 +296,31 @@ class Rig:
         return out, exc, probe
 
 
+def fault_probe(rig):
+    """Fault injection outside the model: the ATT layer fails (raises) while a request handler sends its
+    answer; the exception leaves the handler through txlock.  The next request must still be answered.
+    None = not applicable (no connection / PDU thread already blocked)."""
+    if DEAD["flag"] or 1 not in rig.ll.state.connections:
+        return None
+    rig.profile.plan, rig.profile.acts = {}, {}
+    def boom(*a, **k):
+        raise TransportBoom()
+    rig.att.error_response = boom
+    try:
+        try:
+            rig.inject(bytes.fromhex("0a0000"))
+        except (Exception, WouldDeadlock):  # noqa
+            pass
+    finally:
+        del rig.att.error_response
+    rig.out = []
+    try:
+        rig.inject(bytes.fromhex("0a0000"))
+        return rig.out == ["010a000001"]
+    except (Exception, WouldDeadlock):  # noqa
+        return False
+
+
 def run_case(case):
     DEAD["flag"] = False
     DEAD["in_pdu"] = False
@@ -306,7 +335,7 @@ def run_case(case):
         delta = {h: v for h, v in cur.items() if prev.get(h) != v}
         prev = cur
         res.append({"out": out, "exc": exc, "probe": probe, "vals": delta})
-    return {"steps": res, "initial": first}
+    return {"steps": res, "initial": first, "fault_probe": fault_probe(rig)}
 
 
 def main():
